@@ -41,6 +41,29 @@ theorem gauss_integrates_monomials : ∀ p ∈ Gen.accepted, ∃ r, Gen.rule p.1
   obtain ⟨r, hr, hs⟩ := gauss_exact p hp
   exact ⟨r, hr, fun es h1 h2 => hs.exact es h1 (fun e he => by have := h2 e he; omega)⟩
 
+/-- **every polynomial** of per-variable degree `≤ 2(order+1)−1`, given by its terms
+`(coefficient, exponents)`, is integrated to its term-wise integral `Σ c·Π ∫_{-1}^{1} x^{e_j}`
+(which is the iterated integral over the square / cube, see `monomial_integral_2d/3d`). -/
+theorem gauss_integrates_polynomials : ∀ p ∈ Gen.accepted, ∃ r, Gen.rule p.1 p.2 = .ok r ∧
+    ∀ terms : List (ℝ × List ℕ), (∀ c ∈ terms, c.2.length = p.1 ∧ ∀ e ∈ c.2, e ≤ 2 * p.2 + 1) →
+      (r.real.map fun pw => pw.2 * polyEval terms pw.1).sum
+        = (terms.map fun c => c.1 * (c.2.map fun k => ∫ x in (-1 : ℝ)..1, x ^ k).prod).sum := by
+  intro p hp
+  obtain ⟨r, hr, hs⟩ := gauss_exact p hp
+  refine ⟨r, hr, fun terms ht => exact_polyN hs.exact terms (fun c hc => ?_)⟩
+  exact ⟨(ht c hc).1, fun e he => by have := (ht c hc).2 e he; omega⟩
+
+/-- the product of 1-D integrals used above is the iterated integral of the monomial (2-D, 3-D) -/
+theorem monomial_integral_2d (i j : ℕ) :
+    ∫ x in (-1 : ℝ)..1, ∫ y in (-1 : ℝ)..1, x ^ i * y ^ j
+      = ([i, j].map fun k => ∫ x in (-1 : ℝ)..1, x ^ k).prod := by
+  rw [iterated_integral_2d]; simp only [List.map_cons, List.map_nil, List.prod_cons, List.prod_nil, mul_one]
+
+theorem monomial_integral_3d (i j k : ℕ) :
+    ∫ x in (-1 : ℝ)..1, ∫ y in (-1 : ℝ)..1, ∫ z in (-1 : ℝ)..1, x ^ i * y ^ j * z ^ k
+      = ([i, j, k].map fun n => ∫ x in (-1 : ℝ)..1, x ^ n).prod := by
+  rw [iterated_integral_3d]; simp only [List.map_cons, List.map_nil, List.prod_cons, List.prod_nil, mul_one]
+
 /-- the default / symbolic order `"max"` is one of the proved rules -/
 theorem gauss_max_exact : ∀ p ∈ Gen.accepted, ∃ o r, Gen.maxOrder p.1 = some o ∧
     gaussM Gen.maxOrder Gen.rule p.1 .max = .ok r ∧ GaussSpec r p.1 (o + 1) := by
